@@ -113,6 +113,225 @@ PROPS = {
     },
 }
 
+STREAM_RULE = (
+    "seeded stream cases: structured-random non-empty pattern list (standard semantics, occasionally 30-130 patterns or "
+    "one ~9 KiB pattern so that 8*max_pattern_len exceeds the default 64 KiB buffer) x random automaton configuration "
+    "(all 7 ways of building a searcher) x pattern-derived stream x read-size schedule (single bytes, fill-the-buffer, "
+    "pattern-length reads, mixed) x internal buffer capacity set through the hook to max_pattern_len + spare, spare in "
+    "{1,2,3,5,8,64}; plus a few cases with the crate's default capacity on streams of 200 KiB+ (un-hooked path). "
+    "Reader and writer are instrumented and log every call. "
+)
+
+PROPS.update({
+    "C04": {
+        "level": "exploration",
+        "design_ref": "DESIGN.md section 5, C04",
+        "rule": "per pattern list (representation-stressing shapes: 1..256 children under one node around the sparse/"
+                "dense switch, chains, all 256 start bytes, 99-102 patterns, a^k b families, plus structured-random "
+                "lists; match kind cycles; case-insensitivity and prefilter random): (a) PRODUCT WALK of the reference "
+                "(noncontiguous NFA, dense_depth 0) against 15 variants (noncontiguous dense_depth 1/3/100; contiguous "
+                "dense_depth 0/2/100 x byte classes on/off; DFA x start kind x byte classes) from the anchored and the "
+                "unanchored start states over all 256 bytes: every reachable state pair must agree on is_match and on "
+                "the full ordered match list (pattern id, pattern length), and the variant may flag a start state only "
+                "where the reference is in one; (b) END-TO-END differential of find / find_iter / earliest / overlapping "
+                "(iterator and stepping) between top-level searchers (auto + 3 explicit kinds) and the 3 low-level types "
+                "with random dense depth / byte classes / start kind on sampled haystacks and spans, anchored and "
+                "unanchored. evaluations = product walks + end-to-end comparisons; states/transitions = reachable "
+                "pairs / compared transitions. Non-trivial: a product with more than 3 pairs, or an end-to-end case "
+                "with a match.",
+        "assumptions": COMMON_ASSUMPTIONS[1:] + [
+            "equal match observables on all reachable pairs imply equal results of every search loop because the loops "
+            "consume only start_state/next_state/is_special/is_dead/is_match/match_len/match_pattern/pattern_len",
+            "product walks are capped at 200000 pairs per variant (cap hits are counted; none on the pinned tree)"],
+        "stages": {"quick": NATIVE, "thorough": NATIVE},
+        "coverage_map": {"states": "product_pairs", "transitions": "product_transitions"},
+        "floors": {"quick": {"product_transitions": 100_000_000, "product_pairs": 400_000,
+                             "e2e_compared_top-auto": 5000, "e2e_compared_low-dfa": 5000,
+                             "product_walks_low-dfa": 2000, "product_walks_low-cnfa": 2000,
+                             "distinct_nontrivial": 20_000},
+                   "thorough": {"product_transitions": 2_000_000_000, "distinct_nontrivial": 500_000}},
+        "timeout": T_DEFAULT,
+    },
+    "C16": {
+        "level": "exploration",
+        "design_ref": "DESIGN.md section 5, C16",
+        "rule": "per pattern list (same shapes as C04) x match kind x 21 low-level configurations (noncontiguous x dense "
+                "depth; contiguous x dense depth x byte classes; DFA x start kind x byte classes; prefilter and case "
+                "folding random): BFS from start_state(No) and start_state(Yes) through next_state for all 256 bytes "
+                "and both anchoring arguments; at every reached state the contract of the property is asserted "
+                "(exhaustive per automaton: states/transitions are reported). Then the search recipe from the "
+                "Automaton trait documentation, transcribed into the harness, is run on sampled haystacks and compared "
+                "with try_find. evaluations = automata walked + recipe comparisons. Non-trivial: an automaton with "
+                "more than 3 reachable states, or a recipe comparison with a match.",
+        "assumptions": COMMON_ASSUMPTIONS[1:] + ["pattern lists are sampled; the walk of each built automaton is complete"],
+        "stages": {"quick": NATIVE, "thorough": NATIVE},
+        "coverage_map": {"states": "states_walked", "transitions": "transitions_walked"},
+        "floors": {"quick": {"transitions_walked": 500_000_000, "states_walked": 1_000_000,
+                             "automata_walked_low-dfa": 5000, "automata_walked_low-cnfa": 5000,
+                             "automata_walked_low-nnfa": 2500, "recipe_searches": 100_000},
+                   "thorough": {"transitions_walked": 10_000_000_000}},
+        "timeout": T_DEFAULT,
+    },
+    "C05": {
+        "level": "exploration",
+        "design_ref": "DESIGN.md section 5, C05",
+        "rule": "pattern lists aimed at each prefilter variant (single pattern; <=3 ASCII start bytes; shared rare bytes "
+                "at different offsets; 3-16 patterns for packed; a >=256 byte pattern that must disable the rare-byte "
+                "prefilter; case-insensitive versions) x 3 match kinds x random automaton kind/options, searcher built "
+                "twice (prefilter on / off). Haystacks up to ~4 KiB and vector-shaped lengths with decoys (pattern bytes "
+                "sprinkled everywhere, adjacent matches, truncated matches at the end) x spans. Compared: find, "
+                "find_iter, earliest (found or not), overlapping iterator and stepping (standard), is_match. The variant "
+                "in use is read from the prefilter's Debug output; 'skipped_<variant>' counts cases where the hook "
+                "counter shows fewer automaton transitions with the prefilter than without. Non-trivial: a prefilter is "
+                "active and a match exists.",
+        "assumptions": COMMON_ASSUMPTIONS[1:] + [
+            "which occurrence an earliest-mode search returns is not fixed by the semantics (a packed prefilter confirms "
+            "the full leftmost match), so earliest is compared as found/not-found here; C14 checks its validity"],
+        "stages": {"quick": NATIVE, "thorough": NATIVE},
+        "floors": {"quick": {"evaluations": 500_000, "distinct_nontrivial": 200_000,
+                             "variant_Memmem": 30_000, "variant_StartBytesOne": 20_000, "variant_StartBytesTwo": 30_000,
+                             "variant_StartBytesThree": 8_000, "variant_RareBytesOne": 40_000,
+                             "variant_RareBytesTwo": 25_000, "variant_RareBytesThree": 8_000, "variant_Packed": 60_000,
+                             "skipped_Memmem": 20_000, "skipped_StartBytesOne": 10_000, "skipped_StartBytesTwo": 20_000,
+                             "skipped_StartBytesThree": 5_000, "skipped_RareBytesOne": 30_000,
+                             "skipped_RareBytesTwo": 20_000, "skipped_RareBytesThree": 5_000, "skipped_Packed": 50_000},
+                   "thorough": {"evaluations": 20_000_000}},
+        "timeout": T_DEFAULT,
+    },
+    "C06": {
+        "level": "exploration",
+        "design_ref": "DESIGN.md section 5, C06",
+        "rule": "1-128 non-empty patterns (minimum length 1,2,3,4+ selects the fingerprint length; shared prefixes; "
+                "alphabets whose bytes share low nybbles) x {leftmost-first, leftmost-longest} x {Rabin-Karp, slim Teddy "
+                "128-bit, slim Teddy 256-bit, fat Teddy 256-bit, default heuristics} (heuristic pattern limits off for "
+                "the forced variants so that buckets are over-full) x haystacks of lengths around 0, 16, 32, 48, 64, 96, "
+                "128, 256 (+512..4097 thorough) with five filler strategies (unused byte, low-nybble sharers, "
+                "high-nybble sharers, first-byte decoys, sprinkled pattern bytes) and matches planted at the start, "
+                "around multiples of 16/32, flush against the end, truncated at the end x spans. find_in and find_iter "
+                "compared with the leftmost oracle. Tallies '<impl>_m<mask>_{vector,fallback}' say whether the Teddy "
+                "code or the short-haystack Rabin-Karp fallback ran. Non-trivial: a match exists.",
+        "assumptions": COMMON_ASSUMPTIONS,
+        "stages": {"quick": NATIVE, "thorough": NATIVE},
+        "floors": {"quick": dict({"evaluations": 3_000_000, "distinct_nontrivial": 1_000_000,
+                                  "vector_path_with_match": 700_000, "match_in_final_16_bytes": 150_000,
+                                  "match_straddles_16_byte_boundary": 100_000},
+                                 **{"%s_m%d_vector" % (i, m): 20_000
+                                    for i in ("SlimSSSE3", "SlimAVX2", "FatAVX2") for m in (1, 2, 3, 4)}),
+                   "thorough": {"evaluations": 100_000_000}},
+        "timeout": T_DEFAULT,
+    },
+    "C07": {
+        "level": "exploration",
+        "design_ref": "DESIGN.md section 5, C07",
+        "rule": STREAM_RULE + "Oracle: the stream iterator's matches (absolute offsets) must equal the same searcher's "
+                "in-memory find_iter on the concatenation; no io error without a fault; the iterator may end only after "
+                "the reader returned 0. Rolls/fills are counted by the hooks. Non-trivial: at least one buffer roll "
+                "happened and at least one match exists.",
+        "assumptions": COMMON_ASSUMPTIONS[1:] + ["the in-memory find_iter of the same searcher is the reference (its own correctness is C02)"],
+        "stages": {"quick": NATIVE, "thorough": NATIVE},
+        "floors": {"quick": {"evaluations": 50_000, "distinct_nontrivial": 30_000, "rolls_observed": 1_000_000,
+                             "cases_with_roll": 30_000, "cases_default_capacity": 16},
+                   "thorough": {"evaluations": 2_000_000, "rolls_observed": 50_000_000}},
+        "timeout": T_DEFAULT,
+    },
+    "C08": {
+        "level": "exploration",
+        "design_ref": "DESIGN.md section 5, C08",
+        "rule": STREAM_RULE + "Replacement tables contain empty / shorter / longer / reversed replacements; a third of "
+                "the writers accept only half of each write. Offline checker over the writer's log: output == in-memory "
+                "find_iter + splice (== replace_all_bytes); closure variant: the (match, bytes) call log equals "
+                "find_iter and the bytes of the concatenation at those offsets, output == bracketed splice. "
+                "Non-trivial: a roll happened and a match exists.",
+        "assumptions": COMMON_ASSUMPTIONS[1:] + ["the in-memory find_iter of the same searcher is the reference (C02/C12)"],
+        "stages": {"quick": NATIVE, "thorough": NATIVE},
+        "floors": {"quick": {"evaluations": 100_000, "distinct_nontrivial": 30_000, "rolls_observed": 1_000_000,
+                             "cases_partial_writes": 10_000, "closure_calls_logged": 1_000_000},
+                   "thorough": {"evaluations": 4_000_000}},
+        "timeout": T_DEFAULT,
+    },
+    "C18": {
+        "level": "fault_enumeration",
+        "design_ref": "DESIGN.md section 5, C18",
+        "rule": STREAM_RULE + "For each case a fault-free run records matches*, output*, and the number of read and write "
+                "calls; then for EVERY k below those counts a fault (ErrorKind Other / Interrupted / UnexpectedEof / "
+                "WouldBlock) is injected (a) at the k-th read of stream_find_iter, (b) at the k-th read of "
+                "stream_replace_all, (c) at the k-th write of stream_replace_all, plus sampled read+write double faults. "
+                "Required: no panic; the error is surfaced (iterator item / Err return) - the iterator may only end "
+                "without it if the reader reported end of stream; matches before the error are a prefix of matches*; "
+                "bytes accepted by the writer are a prefix of output*. (std's write_all retries Interrupted writes: "
+                "then Ok with complete output is required.) A case = one injected fault; every one is distinct.",
+        "assumptions": COMMON_ASSUMPTIONS[1:] + [
+            "fault positions are enumerated exhaustively per (stream, schedule, capacity); streams and schedules are sampled",
+            "the error kind reaching the caller is not required to equal the injected kind, only that an error is reported"],
+        "exhaustive": False,
+        "exhaustive_note": "fault positions exhaustive per case; cases sampled",
+        "stages": {"quick": NATIVE, "thorough": NATIVE},
+        "floors": {"quick": {"evaluations": 1_500_000, "read_faults_injected_find": 500_000,
+                             "read_faults_injected_replace": 500_000, "write_faults_injected": 400_000,
+                             "read_faults_surfaced_in_rolling_cases": 400_000},
+                   "thorough": {"evaluations": 40_000_000}},
+        "timeout": T_DEFAULT,
+    },
+    "C10": {
+        "level": "exploration",
+        "design_ref": "DESIGN.md section 5, C10",
+        "rule": "prefilter-directed and structured-random pattern lists x 3 match kinds x anchored/unanchored x random "
+                "configuration (all automaton kinds, all prefilter variants) x vector-shaped haystacks with decoys x "
+                "spans (full, heads, tails shorter than a vector, inner, start=end+1). Metamorphic oracle per case: "
+                "(1) every API (find, find_iter, earliest, overlapping iterator/stepping) on the span equals the same "
+                "API on the sub-slice shifted by start; (2) every match lies inside the span; (3) rewriting all bytes "
+                "outside the span with random bytes, and with pattern heads/tails that would complete a match across "
+                "the boundary, leaves all results unchanged; (4) start=end+1 yields nothing. Same for "
+                "packed::Searcher::find_in in all packed variants. Non-trivial: a proper sub-span with a match.",
+        "assumptions": COMMON_ASSUMPTIONS[1:],
+        "stages": {"quick": NATIVE, "thorough": NATIVE},
+        "floors": {"quick": {"evaluations": 3_000_000, "distinct_nontrivial": 300_000, "outside_rewrites": 1_000_000,
+                             "done_spans": 100_000, "packed_span_SlimSSSE3": 100_000, "packed_span_FatAVX2": 100_000,
+                             "variant_Packed": 4000, "variant_RareBytesOne": 3000, "variant_StartBytesTwo": 2000,
+                             "variant_Memmem": 1000},
+                   "thorough": {"evaluations": 100_000_000}},
+        "timeout": T_DEFAULT,
+    },
+    "C11": {
+        "level": "exploration",
+        "design_ref": "DESIGN.md section 5, C11",
+        "rule": "pattern lists over alphabets drawn from a A z Z k K @ [ ` { 1 0xC1 0xE1 NUL 0x80 (bytes that differ by "
+                "0x20 with and without being letters), patterns differing only by bit 0x20, plus prefilter-directed "
+                "lists; haystacks get bit 0x20 flipped at random positions. Searchers built with "
+                "ascii_case_insensitive(true), all match kinds, anchored/unanchored, random automaton configuration. "
+                "(a) folding oracle: find / find_iter / overlapping (stepping + iterator) must equal the definition "
+                "with A-Z mapped to a-z on both sides and pattern ids as supplied; (b) metamorphic: results equal those "
+                "of a case-sensitive searcher for the folded patterns on the folded haystack. Non-trivial: a match "
+                "exists.",
+        "assumptions": COMMON_ASSUMPTIONS,
+        "stages": {"quick": NATIVE, "thorough": NATIVE},
+        "floors": {"quick": {"evaluations": 3_000_000, "distinct_nontrivial": 250_000,
+                             "fold_metamorphic_comparisons": 500_000, "haystacks_with_boundary_bytes": 200_000},
+                   "thorough": {"evaluations": 100_000_000}},
+        "timeout": T_DEFAULT,
+    },
+    "C12": {
+        "level": "exploration",
+        "design_ref": "DESIGN.md section 5, C12",
+        "rule": "UTF-8 haystacks of 0-14 characters over 3-6 of {a b e-acute sharp-s euro CJK emoji U+1D11E U+80 U+7FF "
+                "U+800 U+FFFF U+10000 space}; 1-5 byte patterns that are whole characters, proper prefixes / suffixes of "
+                "a code point, arbitrary byte slices of the haystack (straddling characters), sometimes the empty "
+                "pattern; all match kinds and automaton configurations; replacement tables with empty / multi-byte "
+                "replacements; closures that return false at call 0-3. Oracle: the searcher's own find_iter output is "
+                "spliced by the monitor (for &str APIs after dropping matches whose bounds are not char boundaries) and "
+                "compared with replace_all, replace_all_bytes, replace_all_with, replace_all_with_bytes (try_ forms); "
+                "closure call logs must equal the match list and the matched text; results must be valid UTF-8; no "
+                "panic. Non-trivial: at least one match.",
+        "assumptions": COMMON_ASSUMPTIONS[1:] + ["the searcher's own find_iter is the given (C01/C02 decide its correctness)"],
+        "stages": {"quick": NATIVE, "thorough": NATIVE},
+        "floors": {"quick": {"evaluations": 1_000_000, "distinct_nontrivial": 200_000,
+                             "cases_with_non_boundary_matches": 100_000, "cases_with_empty_matches": 15_000,
+                             "closure_stopped_early": 40_000},
+                   "thorough": {"evaluations": 40_000_000}},
+        "timeout": T_DEFAULT,
+    },
+})
+
 # Text for MANIFEST.json (level_claimed.text, level_note, technique) per property.
 _ORACLE_NOTE = ("Trusted base: the naive byte-comparison oracle, the generators, rustc/std. Exploration only: "
                 "holds on the executions observed (counts in the evidence file), not for all inputs.")
@@ -167,3 +386,91 @@ MANIFEST_TEXT = {
         "technique": "runtime monitoring: relational (metamorphic) oracle over enumerated + random executions",
     },
 }
+
+_DIFF_NOTE = ("Trusted base: the differential/metamorphic relation itself, the generators, rustc/std. Exploration "
+              "only: holds on the executions observed (counts in the evidence file).")
+
+MANIFEST_TEXT.update({
+    "C04": {
+        "level_text": "The 'for every haystack' quantifier is reached per pattern list by monitoring the live automata: a "
+                      "BFS over the reachable product of a reference automaton and each of 15 other representations "
+                      "compares, at every reachable state pair and for all 256 bytes, everything the search loops "
+                      "consume (is_match, ordered match list, pattern lengths, start flag). Agreement on the whole "
+                      "reachable product implies identical results on every haystack for that pattern list. What cannot "
+                      "be walked (top-level searcher, automatic kind choice, low-level vs top-level) is covered by an "
+                      "end-to-end differential through all search entry points. Pattern lists are sampled.",
+        "level_note": "Trusted base: the argument that search results are a function of the walked observables (the "
+                      "generic loops in automaton.rs read nothing else); pattern lists sampled, per-list walk complete "
+                      "up to a 200k-pair cap.",
+        "technique": "runtime monitoring: exhaustive product walk of live automata + end-to-end differential",
+    },
+    "C16": {
+        "level_text": "Structural invariant check at quiescent points: every state reachable from either start state of "
+                      "each built low-level automaton is visited (all bytes, both anchoring arguments) and the trait "
+                      "contract is asserted there; the documented search recipe is executed against the built-in search. "
+                      "Exhaustive per automaton, pattern lists and options sampled.",
+        "level_note": "Trusted base: the transcription of the contract and of the documented recipe; catch_unwind for "
+                      "panics. Pattern lists sampled.",
+        "technique": "runtime monitoring: exhaustive invariant walk of live data structures + recipe differential",
+    },
+    "C05": {
+        "level_text": "Differential monitor: the same searcher built with the prefilter on and off must answer every "
+                      "search API identically on hostile haystacks (decoy candidate bytes at every position, long inputs, "
+                      "restricted spans, resumed searches). The monitor records which of the 8 prefilter variants each "
+                      "case exercised and, via the transition-counter hook, that the prefilter actually skipped; "
+                      "per-variant coverage floors make a run that missed a variant inconclusive.",
+        "level_note": _DIFF_NOTE,
+        "technique": "runtime monitoring: on/off differential with per-variant coverage floors (hook counters)",
+    },
+    "C06": {
+        "level_text": "Reference-oracle comparison of packed::Searcher find_in/find_iter for every algorithm variant the "
+                      "CPU offers x fingerprint length 1-4 x both match kinds on vector-shaped haystacks; tallies prove "
+                      "that the vector code (not the fallback) ran for every (variant, mask length).",
+        "level_note": _ORACLE_NOTE,
+        "technique": "runtime monitoring: differential oracle on vector-shaped workloads, per-variant floors",
+    },
+    "C07": {
+        "level_text": "Schedule exploration with an instrumented reader: read-size schedules and (through the hook) "
+                      "internal buffer capacities down to max_pattern_len+1 force a roll/refill every few bytes; the "
+                      "stream match sequence must equal the in-memory sequence. The un-hooked default capacity is "
+                      "exercised on long streams.",
+        "level_note": _DIFF_NOTE + " Read schedules are sampled, not enumerated.",
+        "technique": "runtime monitoring: event-logged reader, schedule/capacity stress, differential vs in-memory search",
+    },
+    "C08": {
+        "level_text": "Conservation check over the recorded writer log and closure-call log: bytes out == bytes of the "
+                      "stream outside matches (once, in order) + replacements; closure sees exactly find_iter's matches "
+                      "and their bytes; partial-write writers included.",
+        "level_note": _DIFF_NOTE,
+        "technique": "runtime monitoring: offline checker over recorded I/O event logs (conservation)",
+    },
+    "C18": {
+        "level_text": "Fault enumeration: for each sampled (stream, schedule, capacity) every read position and every "
+                      "write position is failed once; the monitor requires the error to surface, no panic, and "
+                      "prefix-correctness of matches and output against the fault-free run.",
+        "level_note": "Fault positions exhaustive per case; cases sampled. Trusted base: instrumented reader/writer.",
+        "technique": "runtime monitoring: exhaustive single-fault injection per execution, prefix checker",
+    },
+    "C10": {
+        "level_text": "Metamorphic monitor: span search == shifted sub-slice search for every API; matches inside the "
+                      "span; results invariant under hostile rewrites of the bytes outside the span (including pattern "
+                      "heads/tails straddling the boundary); all prefilter and packed variants, anchored and unanchored.",
+        "level_note": _DIFF_NOTE,
+        "technique": "runtime monitoring: metamorphic relations (sub-slice, outside-byte rewriting)",
+    },
+    "C11": {
+        "level_text": "Folding oracle (occurrence iff bytes equal after A-Z -> a-z on both sides) for find / iter / "
+                      "overlapping / anchored on case-insensitive searchers, plus the metamorphic relation "
+                      "ci(P,H) == cs(fold P, fold H), on alphabets that contain the bytes adjacent to the letter ranges "
+                      "and non-letters differing by 0x20.",
+        "level_note": _ORACLE_NOTE,
+        "technique": "runtime monitoring: reference oracle + metamorphic folding relation",
+    },
+    "C12": {
+        "level_text": "Monitor-side splice of the searcher's own find_iter output compared with all eight replace "
+                      "routines on UTF-8 haystacks with byte patterns that split code points; closure call logs checked; "
+                      "UTF-8 validity and absence of panics checked.",
+        "level_note": _DIFF_NOTE,
+        "technique": "runtime monitoring: differential against monitor-side splice, closure event log",
+    },
+})
